@@ -110,6 +110,8 @@ def run(ctx):
     cfgs = ["Bezier_quick.cfg"] if tier == "quick" else ["Bezier_thorough.cfg", "Bezier_two.cfg"]
     tojudge = []
     n = 0
+    if tier == "thorough":
+        ctx.run_tlc("e1.liveness", "BezierMC", "Bezier_live.cfg")          # subdivision terminates on every instance of the universe
     for ci, cfg in enumerate(cfgs):
         dump = os.path.join(ctx.workdir, "e1_%d" % ci, "states")
         ctx.run_tlc("e1_%d" % ci, "BezierMC", cfg, dump=dump, coverage=(ci == 0))
